@@ -44,6 +44,9 @@ CLAUSE_WHAT = {
              "template is wrong, or text appears that is in no run",
     "Balance": "braces are not balanced (tree has no literal braces)",
     "Again": "two conversions of the same formula differ (not deterministic)",
+    "Alternate": "converting the same element object again (directly / after another tree) gives a different result",
+    "History": "after editing the element object in place the result is not that of the edited tree "
+               "(differs from a freshly parsed copy / from the documented form): depends on call history",
     "Docx": "read_docx does not print the formula as omml_to_latex renders it (or the document failed)",
     "Pptx": "read_pptx does not report the formula as omml_to_latex renders it (or the document failed)",
 }
@@ -154,6 +157,31 @@ def node_xml(n, rng):
             for c in n[field]:
                 body += f"<m:{role}>{content_xml(c, rng)}</m:{role}>" if c or rng.random() < 0.6 else f"<m:{role}/>"
     return f"<m:{k}>{pr}{body}</m:{k}>"
+
+
+def kids_of(n):
+    """contents below a node in document order (mirror of Omml!Kids)."""
+    k = n["k"]
+    if k == "r":
+        return []
+    if k == "box":
+        return [n["kids"]]
+    if k == "d":
+        return list(n["es"])
+    if k == "m":
+        return [c for row in n["rows"] for c in row]
+    return [c for f, _ in ROLE_FIELDS[k] for c in n[f]]
+
+
+def first_run(nodes):
+    for n in nodes:
+        if n["k"] == "r":
+            return n
+        for c in kids_of(n):
+            r = first_run(c)
+            if r is not None:
+                return r
+    return None
 
 
 def tree_xml(tree, rng):
@@ -421,6 +449,7 @@ def _worker(inp, out):
     conv = mod.omml_to_latex
     head = f'<m:oMath xmlns:m="{M_NS}" xmlns:w="{W_NS}" xmlns:a="{A_NS}">'
     cases = []
+    prev_el = None
     for idx, c in enumerate(job["cases"]):
         xml = c.get("xml")
         if xml is None:
@@ -435,6 +464,43 @@ def _worker(inp, out):
                     rec[key] = {"x": False, "o": lex(s, known), "s": s}
             except Exception as e:  # the observation
                 rec[key] = {"x": True, "o": [], "s": "%s: %s" % (type(e).__name__, e)}
+        # ---- call histories on ONE element object: A, A, B (previous tree's object), A, then an
+        #      in-place edit and the same object again vs a freshly parsed copy of its serialisation
+        def safe(el):
+            try:
+                r = conv(el)
+                return {"x": False, "o": lex(r, known), "s": r} if isinstance(r, str) else {"x": True, "o": [], "s": "?"}
+            except Exception as e:
+                return {"x": True, "o": [], "s": "%s: %s" % (type(e).__name__, e)}
+        el = ET.fromstring(head + xml + "</m:oMath>")
+        safe(el)
+        rec["same"] = safe(el)
+        if prev_el is not None:
+            safe(prev_el)
+        rec["alt"] = safe(el)
+        tree2 = json.loads(json.dumps(c["tree"]))
+        kinds = ["append"]
+        if c.get("xml") is None:            # positions in the XML are known only for our own serialisation
+            if tree2:
+                kinds.append("remove")
+            if first_run(tree2) is not None:
+                kinds.append("text")
+        kind = rng.choice(kinds)
+        if kind == "append":
+            tree2.append({"k": "r", "t": ["z"]})
+            r_el = ET.SubElement(el, "{%s}r" % M_NS)
+            ET.SubElement(r_el, "{%s}t" % M_NS).text = "z"
+        elif kind == "remove":
+            tree2.pop()
+            el.remove(list(el)[-1])
+        else:
+            first_run(tree2)["t"] = ["q"]
+            next(x for x in el.iter() if x.tag.endswith("}t")).text = "q"
+        rec["tree2"] = tree2
+        rec["edit"] = kind
+        rec["hist"] = safe(el)
+        rec["fresh"] = safe(ET.fromstring(ET.tostring(el, encoding="unicode")))
+        prev_el = el
         cases.append(rec)
 
     def docx_obs(items):
@@ -582,13 +648,21 @@ def validate_traces(traces, scratch, parallel=12, min_chunk=2000, timeout=1500):
     return reached, tot[0], tot[1], tot[2]
 
 
-def make_trace(c):
+def slim(o):
+    return {"x": o["x"], "o": o["o"]}
+
+
+def make_trace(c, full=True):
     out = c["out"]
     o = {"x": out["x"], "o": out["o"]}
     o2 = {"x": c["out2"]["x"], "o": c["out2"]["o"]}
     return {"id": c["id"], "hdr": {"tree": c["tree"]},
             "ev": [{"a": "Total", "out": o}, {"a": "Shape", "out": o}, {"a": "Balance", "out": o},
-                   {"a": "Again", "out": o, "out2": o2}, {"a": "Docx", "out": o, "doc": c["doc"]},
+                   {"a": "Again", "out": o, "out2": o2},
+                   {"a": "Alternate", "out": o, "same": slim(c["same"]), "alt": slim(c["alt"])},
+                   ({"a": "History", "tree2": c["tree2"], "out": slim(c["hist"]), "fresh": slim(c["fresh"])} if full
+                    else {"a": "History", "out": slim(c["hist"]), "fresh": slim(c["fresh"])}),
+                   {"a": "Docx", "out": o, "doc": c["doc"]},
                    {"a": "Pptx", "out": o, "ppt": c["ppt"]}]}
 
 
@@ -631,7 +705,7 @@ def _observe(ctx, cases, known, tag, channels=True, nproc=8):
 
 def _validate(ctx, observed, parallel):
     """TLC validates the observed cases; -> compact summary (the observations themselves are dropped)."""
-    traces = [make_trace(c) for c in observed]
+    traces = [make_trace(c, full=ctx.thorough or len(observed) < 2000) for c in observed]
     reached, distinct, generated, wall = validate_traces(traces, ctx.scratch, parallel=parallel)
     summ = {"n": len(traces), "distinct": distinct, "generated": generated, "wall": wall, "nontrivial": set(),
             "rejected": [], "counts": {}, "sample": None}
@@ -689,8 +763,10 @@ def _judge(ctx, summ, label, counts):
                     case={"tree": c["tree"], "omml": c["xml"]},
                     expected=f"clause {clause} of Omml.tla (Total / Pattern / Balanced / channels agree)",
                     observed={"omml_to_latex": c["out"]["s"], "second": c["out2"]["s"],
+                              "same_object_again": c["same"]["s"], "after_other_tree": c["alt"]["s"],
+                              "edit_in_place": c["edit"], "after_edit": c["hist"]["s"], "fresh_copy_of_edited": c["fresh"]["s"],
                               "docx": c["doc"], "pptx": c["ppt"]},
-                    where="omml_to_latex.py:omml_to_latex/process_element" if clause in ("Total", "Shape", "Balance", "Again")
+                    where="omml_to_latex.py:omml_to_latex/process_element" if clause in ("Total", "Shape", "Balance", "Again", "Alternate", "History")
                     else "docx_extractor.py:_process_text_element / pptx_extractor.py:_extract_formulas_from_element")
     return summ["n"]
 
